@@ -619,9 +619,6 @@ def features(node, under_switch=False, acc=None, rootish=True):
     if acc is None:
         acc = set()
     k = node["k"]
-    if k == "masked_iterate" and not rootish:
-        # its entries after a masked-off step are unspecified -> must not be consumed
-        acc.add("mi_consumed")
     if k == "masked_iterate_final":
         acc.add("mif")
     if k == "mask" and under_switch:
@@ -650,12 +647,12 @@ def features(node, under_switch=False, acc=None, rootish=True):
         styles = {len(s["addr"]) > 1 for s in node["stmts"]}
         if len(styles) > 1:
             acc.add("mixed_addr")
-    if k != "static":
-        # a closure hands back the wrapped function's trace (with the stored
-        # arguments in get_args()); only the root and static call sites unwrap it
-        for c in inner_nodes(node):
-            if c["k"] == "closure":
-                acc.add("closure_nested")
+    # a closure hands back the wrapped function's trace (stored arguments in
+    # get_args()) and its call syntax means "simulate": it is only meaningful as
+    # the root of a program here
+    for c in inner_nodes(node):
+        if c["k"] == "closure":
+            acc.add("closure_nested")
     for c in inner_nodes(node):
         features(c, under_switch, acc, rootish and k in ("vmap", "repeat"))
     return acc
